@@ -172,6 +172,11 @@ func c16NewServer(k c16Script, unk bool) *c16Env {
 			return []byte("welcome"), nil
 		case "multi":
 			return nil, auth.MultiRecvErr
+		case "panic":
+			// a fault inside the checker (e.g. slicing a too short credential): the PostAccept stage
+			// runner must turn it into a rejection, never into an accepted connection
+			var cred []byte
+			_ = cred[:7]
 		}
 		c, _ := strconv.Atoi(k.verdict)
 		return nil, erpc.NewStatus(int32(c), "denied", "")
@@ -717,7 +722,7 @@ func c16GenCases(r *hx.R, tier string, out *hx.Out) []string {
 	base := func(fam string) *c16Case {
 		return &c16Case{fam: fam, nrecv: 1, prop: true, verdict: "0", fin: "close", tim: r.Intn(4), auth: 0}
 	}
-	verdicts := []string{"0", "0", "403", "401", "500", "multi", "1", "-1"}
+	verdicts := []string{"0", "0", "403", "401", "500", "multi", "1", "-1", "panic", "panic"}
 	pickS := func(xs ...string) string { return xs[r.Intn(len(xs))] }
 	finPick := func(pSilent int) string {
 		if r.Intn(100) < pSilent {
